@@ -124,6 +124,9 @@ class Engine:
         self.timers_pending = False
         self.syncmaps = {}
         self.syncmaps_base = {}
+        self.builders = {}
+        self.keep = []
+        self.keep_base = []
 
     # ------------------------------------------------------------------ types
     def under(self, tid):
@@ -721,6 +724,8 @@ class Engine:
         self.chan_hooks = {}
         self.wg_counters = {}
         self.mutexes = {}
+        self.builders = {}
+        self.keep = []
         self.syncmaps = {k: dict(v) for k, v in self.syncmaps_base.items()}
         self.sched = None
         self.epoch += 1
